@@ -78,7 +78,8 @@ OnBegin(ev) ==
   /\ UNCHANGED viol
 
 OnCall(ev) ==
-  /\ calls' = calls @@ (ev.c :> [n |-> ev.a, x |-> ev.x, combo |-> ev.s, items |-> ev.items,
+  \* ev.k: the name of the span the request context carries (its own, or one shared with another request context)
+  /\ calls' = calls @@ (ev.c :> [n |-> ev.a, x |-> ev.x, sp |-> (IF ev.k = "" THEN ev.x ELSE ev.k), combo |-> ev.s, items |-> ev.items,
                                  accepted |-> FALSE, accT |-> -1, beforeShut |-> FALSE, heldBack |-> FALSE,
                                  ret |-> "none", callAfterShut |-> shutCalled])
   /\ UNCHANGED <<cfg, exps, cancelled, admitted, shutCalled, shutReturned, viol>>
@@ -110,6 +111,8 @@ OnExportBegin(ev) ==
       combos == CombosOf(items)
       one == Cardinality(ctxs) = 1
       theCtx == CHOOSE x \in ctxs : TRUE
+      spans == {calls[c].sp : c \in Owners(items) \cap DOMAIN calls}      \* the spans of the contributing requests
+      theSpan == CHOOSE x \in spans : TRUE
       late == HasTimer /\ ~shutCalled /\ \E c \in Owners(items) \cap DOMAIN calls :
                  calls[c].accepted /\ ~calls[c].heldBack /\ ev.t > calls[c].accT + T * TickMs
       satNow == K > 0 /\ Cardinality(InFlight) + 1 >= K
@@ -126,10 +129,10 @@ OnExportBegin(ev) ==
            \cup If(late, V("C09", "ExportedAfterDeadline", ev))
            \cup If(ctxs # {} /\ ~one /\ ev.x # "own", V("C18", "MixedBatchUnderCallerContext", ev))
            \cup If(ctxs # {} /\ one /\ ev.x # theCtx, V("C18", "SingleBatchNotUnderItsContext", ev))
-           \cup If(ctxs # {} /\ one /\ ev.c # theCtx, V("C18", "SingleBatchNotChildOfRequest", ev))
-           \cup If(ctxs # {} /\ ~one /\ SeqSet(ev.l) # ctxs, V("C18", "LinksNotTheContributors", ev))
-           \cup If(ctxs # {} /\ ~one /\ ev.c # "", V("C18", "MixedBatchHasRequestParent", ev))
-  IN /\ exps' = exps @@ (ev.e :> [items |-> items, x |-> ev.x, res |-> "", ctxs |-> ctxs, t |-> ev.t])
+           \cup If(ev.d = 1 /\ ctxs # {} /\ one /\ ev.c # theSpan, V("C18", "SingleBatchNotChildOfRequest", ev))
+           \cup If(ev.d = 1 /\ ctxs # {} /\ ~one /\ SeqSet(ev.l) # spans, V("C18", "LinksNotTheContributors", ev))
+           \cup If(ev.d = 1 /\ ctxs # {} /\ ~one /\ ev.c # "", V("C18", "MixedBatchHasRequestParent", ev))
+  IN /\ exps' = exps @@ (ev.e :> [items |-> items, x |-> ev.x, res |-> "", ctxs |-> ctxs, spans |-> spans, t |-> ev.t])
      /\ viol' = viol \cup v
      /\ calls' = IF satNow
                  THEN [c \in DOMAIN calls |->
@@ -234,7 +237,7 @@ OnStuck(ev) ==
 
 OnBackLinks(ev) ==
   /\ viol' = viol \cup
-       If(\E e \in DOMAIN exps : Cardinality(exps[e].ctxs) > 1 /\ ev.x \in exps[e].ctxs /\ e \notin SeqSet(ev.l),
+       If(\E e \in DOMAIN exps : Cardinality(exps[e].ctxs) > 1 /\ ev.x \in exps[e].spans /\ e \notin SeqSet(ev.l),
           V("C18", "BackLinkMissing", ev))
   /\ UNCHANGED <<cfg, calls, exps, cancelled, admitted, shutCalled, shutReturned>>
 
